@@ -546,6 +546,57 @@ def two_iterative_stream(rep, tier, r):
   return {'programs': n_prog, 'predicates_checked': checked, 'bad': bad}
 
 
+def aggregate_helper_stream(rep, tier, r):
+  """A recursive component one of whose members reaches the recursion only inside an aggregating expression
+  (Support counts the active predecessors, Active needs support): depth+1 simultaneous applications, for the
+  iterative (depth > 20) and the flat plan."""
+  import json as _json
+  n_prog = 2 if tier == 'quick' else 16
+  jobs, metas = [], []
+  for k in range(n_prog):
+    n = r.randint(30, 45)
+    iterative = (k % 2 == 0)
+    depth = r.randint(22, 28) if iterative else r.randint(5, 9)
+    annotated = 'Active' if iterative else 'Support'    # Support does not cut the group (Active recurses on itself): flat plan
+    lines = ['@Recursive(%s, %d);' % (annotated, depth), 'Node(x) :- x in Range(%d);' % n,
+             'Edge(x, x + 1) :- x in Range(%d - 1);' % n, 'Threshold(x) = (if x == 0 then 0 else 1) :- Node(x);',
+             'Seed(100);', 'Support(x) = Coalesce(Sum{1 :- Edge(y, x), Active(y)}, 0) :- Node(x);',
+             'Active(x) :- Seed(x);', 'Active(x) :- Support(x) >= Threshold(x);',
+             'OutActive(x) :- Active(x);']
+    if not iterative:
+      # Active also recurses on itself, so no single member cuts the group: flat (simultaneous) unfolding
+      lines += ['Relay(1000);', 'Active(x) :- Relay(y), Edge(y, x), Active(y);']
+    text = '@Engine("sqlite");\n' + '\n'.join(lines) + '\n'
+    jobs.append((text, ['OutActive']))
+    metas.append((n, depth))
+  with ProcessPoolExecutor(max_workers=2) as ex:
+    results = list(ex.map(run_real, jobs, chunksize=1))
+  checked = bad = 0
+  for (text, _), (n, depth), got in zip(jobs, metas, results):
+    nodes = list(range(n))
+    edges = [(x, x + 1) for x in range(n - 1)]
+    active, support = set(), {}
+    for _ in range(depth + 1):
+      new_support = {x: sum(1 for (y, z) in edges if z == x and y in active) for x in nodes}
+      new_active = {100} | {x for x in support if support[x] >= (0 if x == 0 else 1)}
+      active, support = new_active, new_support
+    want = set((x,) for x in active)
+    res = got.get('OutActive')
+    checked += 1
+    rows = set(tuple(_json.loads(x)) for x in res[1]) if res and res[0] == 'ok' else None
+    if rows != want:
+      bad += 1
+      if bad <= 2:
+        rep.violation('aggregate-helper:%s' % (res[0] if res and res[0] != 'ok' else 'rows'), {
+            'program_text': text, 'predicate': 'OutActive', 'expected_rows': len(want),
+            'observed': [res[0], (sorted(rows) if rows is not None else res[1])] if res else None,
+            'expected': sorted(want),
+            'law': 'the rules of a recursive component are applied depth+1 times simultaneously, also when a member '
+                   'reaches the recursion only inside an aggregating expression',
+            'how': 'props/c03.py run_real(program_text, [predicate]) (SQLite, Concertina), rows compared as sets'})
+  return {'programs': n_prog, 'predicates_checked': checked, 'bad': bad}
+
+
 def preds_of(case):
   return list(SHAPES[case['shape']].members)
 
@@ -589,8 +640,9 @@ def run(tier, replay=None):
   multi = multi_component_stream(rep, tier, r) if not replay else {}
   uncut = uncut_group_stream(rep, tier, r) if not replay else {}
   two_iter = two_iterative_stream(rep, tier, r) if not replay else {}
+  agg_helper = aggregate_helper_stream(rep, tier, r) if not replay else {}
   stats = {'ok': 0, 'known': 0, 'bad': 0, 'by_shape': {}, 'by_depth': {}, 'iterative_plans': 0,
-           'multi_component': multi, 'uncut_group': uncut, 'two_iterative_components': two_iter,
+           'multi_component': multi, 'uncut_group': uncut, 'two_iterative_components': two_iter, 'aggregate_helper': agg_helper,
            'matched': {}, 'run_s': round(time.time() - t0, 1)}
   for c, got in zip(cases, results):
     verdict, detail = judge(c, got)
